@@ -76,7 +76,7 @@ def gen_c15(r):
     else:
         idx = ["all"]
     return ["rl_getitem", dt, a, idx], {"npint": r.random() < 0.3, "listkind": r.choice(["list", "array"]), "via": r.choice(RLV), "maskvia": r.choice(RLV[:7]),
-                                        "idxdt": r.choice(["i8", "i8", "i1", "u1", "i2", "i4"]), "spelling": r.choice(["plain", "plain", "tuple", "ellipsis"])}, False
+                                        "idxdt": r.choice(["i8", "i8", "i1", "u1", "i2", "i4"]), "spelling": r.choice(["plain", "plain", "tuple", "ellipsis"]), "npbounds": r.random() < 0.3}, False
 
 
 C16_DTS = ["b1", "i1", "u1", "i2", "i2", "u2", "i8", "f4", "f8"]
